@@ -622,11 +622,11 @@ class Cap(object):
                     s_wrap = s.copy()
                     s_wrap.cons += [-cur[1]]
                     s_wrap.path.append("%s wraps below 0" % X.render(n["ch"][0])[:20])
-                    big = fresh("wrap")
-                    s_wrap.cons.append(Lin.sym(big) - (1 << 31))
-                    s_wrap.imprecise.add(big)
-                    self.store(s_wrap, loc, I(Lin.sym(big)), n)
-                    res.append((s_wrap, cur if n.get("post") else I(Lin.sym(big))))
+                    # modular arithmetic at the width of the type: 0 - 1 == 2^w - 1 (exact, so an index built from it is a
+                    # definite finding, not an undecided one)
+                    wv = I(cur[1] - 1 + (1 << (n["ch"][0].get("tw") or 32)))
+                    self.store(s_wrap, loc, wv, n)
+                    res.append((s_wrap, cur if n.get("post") else wv))
                     s.cons.append(cur[1] - 1)
                 if cur[0] == "i":
                     new = I(cur[1] + d)
